@@ -89,3 +89,216 @@ func EvalInt(info *types.Info, e ast.Expr, vars map[types.Object]int64, lens map
 	}
 	return 0, false
 }
+
+// EvalIntFunc folds a *pure integer function* - a declared function whose body consists only of if statements,
+// switch statements over integer constants, assignments of integer locals and returns of integer expressions - for
+// the given integer arguments (one per parameter, in order). It is the statement-level counterpart of EvalInt:
+// every construct outside that fragment (calls, loops, pointers, defers) makes it give up (ok=false).
+func EvalIntFunc(f *FuncInfo, args []int64) (int64, bool) {
+	if f == nil || f.Decl == nil || f.Body == nil {
+		return 0, false
+	}
+	info := f.Info()
+	vars := map[types.Object]int64{}
+	k := 0
+	for _, fld := range f.Decl.Type.Params.List {
+		for _, nm := range fld.Names {
+			if k >= len(args) {
+				return 0, false
+			}
+			vars[info.Defs[nm]] = args[k]
+			k++
+		}
+		if len(fld.Names) == 0 {
+			k++
+		}
+	}
+	if k != len(args) {
+		return 0, false
+	}
+	var evalBool func(x ast.Expr) (bool, bool)
+	evalBool = func(x ast.Expr) (bool, bool) {
+		x = ast.Unparen(x)
+		switch e := x.(type) {
+		case *ast.UnaryExpr:
+			if e.Op == token.NOT {
+				v, ok := evalBool(e.X)
+				return !v, ok
+			}
+		case *ast.BinaryExpr:
+			switch e.Op {
+			case token.LAND, token.LOR:
+				a, ok1 := evalBool(e.X)
+				if !ok1 {
+					return false, false
+				}
+				if e.Op == token.LAND && !a {
+					return false, true
+				}
+				if e.Op == token.LOR && a {
+					return true, true
+				}
+				return evalBool(e.Y)
+			case token.EQL, token.NEQ, token.LSS, token.LEQ, token.GTR, token.GEQ:
+				a, ok1 := EvalInt(info, e.X, vars, nil)
+				b, ok2 := EvalInt(info, e.Y, vars, nil)
+				if !ok1 || !ok2 {
+					return false, false
+				}
+				switch e.Op {
+				case token.EQL:
+					return a == b, true
+				case token.NEQ:
+					return a != b, true
+				case token.LSS:
+					return a < b, true
+				case token.LEQ:
+					return a <= b, true
+				case token.GTR:
+					return a > b, true
+				default:
+					return a >= b, true
+				}
+			}
+		}
+		return false, false
+	}
+	// exec returns (value, returned, ok)
+	var exec func(list []ast.Stmt) (int64, bool, bool)
+	exec = func(list []ast.Stmt) (int64, bool, bool) {
+		for _, st := range list {
+			switch s := st.(type) {
+			case *ast.ReturnStmt:
+				if len(s.Results) != 1 {
+					return 0, false, false
+				}
+				v, ok := EvalInt(info, s.Results[0], vars, nil)
+				return v, true, ok
+			case *ast.AssignStmt:
+				if len(s.Lhs) != len(s.Rhs) {
+					return 0, false, false
+				}
+				for i, l := range s.Lhs {
+					id, ok := l.(*ast.Ident)
+					if !ok {
+						return 0, false, false
+					}
+					v, ok := EvalInt(info, s.Rhs[i], vars, nil)
+					if !ok {
+						return 0, false, false
+					}
+					switch s.Tok {
+					case token.ASSIGN, token.DEFINE:
+						vars[info.ObjectOf(id)] = v
+					case token.ADD_ASSIGN:
+						vars[info.ObjectOf(id)] += v
+					case token.SUB_ASSIGN:
+						vars[info.ObjectOf(id)] -= v
+					default:
+						return 0, false, false
+					}
+				}
+			case *ast.DeclStmt:
+				gd, ok := s.Decl.(*ast.GenDecl)
+				if !ok || gd.Tok != token.VAR {
+					return 0, false, false
+				}
+				for _, sp := range gd.Specs {
+					vs := sp.(*ast.ValueSpec)
+					for i, nm := range vs.Names {
+						var v int64
+						if i < len(vs.Values) {
+							var ok bool
+							if v, ok = EvalInt(info, vs.Values[i], vars, nil); !ok {
+								return 0, false, false
+							}
+						}
+						vars[info.Defs[nm]] = v
+					}
+				}
+			case *ast.IfStmt:
+				if s.Init != nil {
+					return 0, false, false
+				}
+				c, ok := evalBool(s.Cond)
+				if !ok {
+					return 0, false, false
+				}
+				if c {
+					if v, ret, ok := exec(s.Body.List); !ok || ret {
+						return v, ret, ok
+					}
+				} else if s.Else != nil {
+					var body []ast.Stmt
+					switch e := s.Else.(type) {
+					case *ast.BlockStmt:
+						body = e.List
+					case *ast.IfStmt:
+						body = []ast.Stmt{e}
+					}
+					if v, ret, ok := exec(body); !ok || ret {
+						return v, ret, ok
+					}
+				}
+			case *ast.SwitchStmt:
+				if s.Init != nil {
+					return 0, false, false
+				}
+				var chosen, def *ast.CaseClause
+				for _, cl := range s.Body.List {
+					cc := cl.(*ast.CaseClause)
+					if cc.List == nil {
+						def = cc
+						continue
+					}
+					for _, x := range cc.List {
+						hit := false
+						if s.Tag != nil {
+							a, ok1 := EvalInt(info, s.Tag, vars, nil)
+							b, ok2 := EvalInt(info, x, vars, nil)
+							if !ok1 || !ok2 {
+								return 0, false, false
+							}
+							hit = a == b
+						} else {
+							b, ok := evalBool(x)
+							if !ok {
+								return 0, false, false
+							}
+							hit = b
+						}
+						if hit && chosen == nil {
+							chosen = cc
+						}
+					}
+				}
+				if chosen == nil {
+					chosen = def
+				}
+				if chosen != nil {
+					for _, bs := range chosen.Body {
+						if br, ok := bs.(*ast.BranchStmt); ok && br.Tok == token.FALLTHROUGH {
+							return 0, false, false
+						}
+					}
+					if v, ret, ok := exec(chosen.Body); !ok || ret {
+						return v, ret, ok
+					}
+				}
+			case *ast.BlockStmt:
+				if v, ret, ok := exec(s.List); !ok || ret {
+					return v, ret, ok
+				}
+			default:
+				return 0, false, false
+			}
+		}
+		return 0, false, true
+	}
+	v, ret, ok := exec(f.Body.List)
+	if !ok || !ret {
+		// named result falling off the end is not supported
+		return 0, false
+	}
+	return v, true
+}
